@@ -13,3 +13,50 @@ Proof. exact color_roundtrip. Qed.
 Theorem c12_color_old_refuted :
   exists r g b, r < 256 /\ g < 256 /\ b < 256 /\ parse_color (fmt_color_old r g b) <> Some (r, g, b).
 Proof. exact color_old_refuted. Qed.
+
+(* the container writer never panics and never hangs, whatever the database content and
+   configuration (model of dump_kdbx4; primitives total) *)
+From Coq Require Import Permutation.
+From KP Require Import Kdbx4Proofs Kdbx4Total.
+Theorem c12_dump4_total :
+  forall (sha256 sha512 : bytes -> bytes) (hmac256 : bytes -> bytes -> bytes)
+         (kdf : kdfcfg -> bytes -> bytes -> outcome kerr bytes)
+         (outer_enc : ocipher -> bytes -> bytes -> bytes -> outcome kerr bytes)
+         (compress : compression -> bytes -> outcome kerr bytes) cfg d vd els atts xml,
+  good els ->
+  (forall k s c, good (kdf k s c)) ->
+  (forall z p, good (compress z p)) ->
+  (forall c k iv p, good (outer_enc c k iv p)) ->
+  good (dump4 sha256 sha512 hmac256 kdf outer_enc compress cfg d vd els atts xml).
+Proof. exact dump4_total. Qed.
+
+(* whenever the container writer returns a file, the container reader accepts it and returns what
+   was written: at the framing level, save never succeeds with a file that cannot be read back *)
+Theorem c12_written_file_is_readable :
+  forall (sha256 sha512 : bytes -> bytes) (hmac256 : bytes -> bytes -> bytes)
+         (kdf : kdfcfg -> bytes -> bytes -> Kdbx4.res bytes)
+         (outer_enc outer_dec : ocipher -> bytes -> bytes -> bytes -> Kdbx4.res bytes)
+         (compress decompress : compression -> bytes -> Kdbx4.res bytes),
+  (forall c key iv p ct, outer_enc c key iv p = Ok ct -> outer_dec c key iv ct = Ok p) ->
+  (forall z p c, compress z p = Ok c -> decompress z c = Ok p) ->
+  (forall m, length (sha256 m) = 32%nat) ->
+  (forall k m, length (hmac256 k m) = 32%nat) ->
+  forall cfg d vd els atts xml file minor,
+  c_version cfg = KDB4 minor -> minor < 2 ^ 16 ->
+  draws_ok cfg d = true ->
+  Permutation vd (vd_of_kdf (c_kdf cfg) (d_kdf_seed d)) ->
+  kdf_params_ok (c_kdf cfg) = true ->
+  atts_ok atts = true ->
+  dump4 sha256 sha512 hmac256 kdf outer_enc compress cfg d vd els atts xml = Ok file ->
+  N.of_nat (length file) < 2 ^ 32 ->
+  decrypt4 sha256 sha512 hmac256 kdf outer_dec decompress file els = Ok (cfg, atts, d_inner_key d, xml).
+Proof. exact frame_roundtrip_small_file. Qed.
+
+(* the object mapping: on the domain wf_content, what the writer emits is read back (model
+   xml/XmlDump.v, xml/XmlParse.v); outside it lie exactly the open findings F6a,b,d,e *)
+From KP Require Import XmlTypes XmlDump XmlParse XmlSpec XmlRoundTrip.
+Theorem c12_xml_written_is_readable :
+  forall (gzip : bytes -> bytes) (gunzip : bytes -> option bytes) (c : content) (ks : bytes),
+  wf_content gzip gunzip c = true -> bytes_ok ks = true ->
+  parse_events gunzip (dump_events gzip c ks) ks = Ok c.
+Proof. exact parse_dump_roundtrip. Qed.
